@@ -307,4 +307,5 @@ package kubeeventsmanager
 //@   ensures [stopped-factory-leaves-the-store] nFactoryCancel > old(nFactoryCancel) ==> !has(c.data, index)
 //@   ensures [only-this-factory-removed] forall(i, FactoryIndex, i != index ==> has(c.data, i) == old(has(c.data, i)) && c.data[i] == old(c.data[i]))
 //@   ensures [stopped-at-most-once] nFactoryCancel <= old(nFactoryCancel) + 1
+//@   ensures [not-stopped-while-used] nFactoryCancel > old(nFactoryCancel) ==> card(old(c.data[index]).handlerRegistrations) == 0
 //@   ensures [last-user-stops-it] old(has(c.data, index)) && old(has(c.data[index].handlerRegistrations, informerId)) && card(old(c.data[index]).handlerRegistrations) == 0 ==> nFactoryCancel == old(nFactoryCancel) + 1
